@@ -217,3 +217,10 @@ rt_h!(c01_rt_vec_opt_u8_2, 26, Vec<Option<u8>>, vec![kani::any(), kani::any()],
 rt_h!(c01_rt_vec_string_1, 26, Vec<String>, vec![mk_string2()], ty(TypeInner::Vec(ty(TypeInner::Text))),
       |v: &Vec<String>, o: &mut Out| { o.leb(1); enc_str(&v[0], o); },
       |a: &Vec<String>, b: &Vec<String>| a.len() == 1 && b.len() == 1 && a[0] == b[0]);
+
+// transparent wrappers: the Candid type is the element's, the memory layout is not
+rt_h!(c01_rt_vec_box_u64_1, 26, Vec<Box<u64>>, vec![Box::new(kani::any())], ty(TypeInner::Vec(ty(TypeInner::Nat64))),
+      |v: &Vec<Box<u64>>, o: &mut Out| { o.leb(1); o.le(*v[0], 8); }, |a: &Vec<Box<u64>>, b: &Vec<Box<u64>>| a.len() == 1 && b.len() == 1 && *a[0] == *b[0]);
+rt_h!(c01_rt_vec_box_u32_2, 26, Vec<Box<u32>>, vec![Box::new(kani::any()), Box::new(kani::any())], ty(TypeInner::Vec(ty(TypeInner::Nat32))),
+      |v: &Vec<Box<u32>>, o: &mut Out| { o.leb(2); o.le(*v[0] as u64, 4); o.le(*v[1] as u64, 4); },
+      |a: &Vec<Box<u32>>, b: &Vec<Box<u32>>| a.len() == 2 && b.len() == 2 && *a[0] == *b[0] && *a[1] == *b[1]);
